@@ -25,8 +25,16 @@ impl Rng {
 pub const CHARS: [&str; 12] = ["a", "b", "z", "0", "Z", " ", "é", "ß", "€", "あ", "𝄞", "😀"];
 const LENS: [usize; 17] = [0, 1, 2, 3, 4, 7, 8, 14, 15, 16, 17, 18, 24, 31, 32, 33, 100];
 
+/// characters whose encoding ends in (or consists of) an edge of a UTF-8 byte class — 0x7F, C2 80, C2 BF, C3 BF, DF BF,
+/// E0 A0 80, ED 9F BF, EE 80 80, EF BF BD/BE/BF, F0 90 80 80, F4 8F BF BF — or that text shortcuts single out (NUL, BOM)
+pub const EDGE_CHARS: [&str; 16] = ["\u{0}", "\u{7F}", "\u{80}", "\u{BF}", "\u{FF}", "\u{7FF}", "\u{800}", "\u{D7FF}", "\u{E000}",
+    "\u{FEFF}", "\u{FFFD}", "\u{FFFE}", "\u{FFFF}", "\u{10000}", "\u{1F4BF}", "\u{10FFFF}"];
+
 pub fn rand_char(rng: &mut Rng) -> &'static str {
-    // bias toward ASCII so that lengths are controllable, but every width appears
+    // bias toward ASCII so that lengths are controllable, but every width appears; now and then an edge of a byte class
+    if rng.chance(6) {
+        return EDGE_CHARS[rng.below(EDGE_CHARS.len())];
+    }
     if rng.chance(55) { CHARS[rng.below(6)] } else { CHARS[6 + rng.below(6)] }
 }
 
